@@ -1,14 +1,14 @@
 (* Extraction of the executable model to OCaml.  ExtrOcamlBasic only: no Extract Constant of our own,
    numbers stay the Coq inductives, text is [list N]. *)
 From Coq Require Extraction ExtrOcamlBasic.
-From PG Require Import Model.Text Model.SemVer Model.Range Model.Instances Model.VS Model.Term Model.Offline Model.Heap Model.Solver Model.Json Model.Report.
+From PG Require Import Model.Text Model.SemVer Model.Range Model.Instances Model.VS Model.Term Model.Offline Model.Heap Model.Solver Model.Json Model.Report Proofs.SolverGen.
 
 Extraction "model.ml"
   dec_N dec_Z txt
   RZ rz_display
   bitset_vs v8_of_N v8_idx all_v8
   run packages versions get_dependencies choose_version prioritize_count priority_compare
-  resolve resolve_h heap_step heap_run heap_pop heap_push
+  resolve resolve_h resolve_g heap_step heap_run heap_pop heap_push
   collapse_no_versions merge_no_versions report_steps report_with_fuel
   t_any t_empty t_exact t_negate t_contains t_intersection t_union t_is_disjoint t_subset_of t_relation_with t_eqb t_is_positive
   enc_num dec_u32 enc_sv dec_sv encode_range_u32 decode_range_u32 encode_range_sv decode_range_sv
